@@ -49,7 +49,10 @@ fn main() {
     "C05" => c05::run(&mut sink, &mut rng, thorough),
     "C06" => c06::run(&mut sink, &mut rng, thorough),
     "C07" => c07::run(&mut sink, &mut rng, thorough),
-    "C12" => c07::run_c12(&mut sink, &mut rng, thorough),
+    "C12" => {
+      c07::run_c12(&mut sink, &mut rng, thorough);
+      st::c12_st(&mut sink, &mut rng, thorough);
+    }
     "C13" => c13::run(&mut sink, &mut rng, thorough),
     "C17" => c17::run(&mut sink, &mut rng, thorough),
     "C18" => c18::run(&mut sink, &mut rng, thorough),
